@@ -294,6 +294,7 @@ func init() {
 			// collision groups inside maps whose root is an index slab (a removal can make a leaf GROW and split): every
 			// transition also with a commit placed before the operation, then commit and recovery
 			specs = append(specs, collMetaSpecs(r, []string{"crash", "coldop"})...)
+			specs = append(specs, coldClosureSpecs(r)...)
 			// small trees, cold (every slab clean): shrinking overwrites and removals that borrow from / merge with a clean sibling
 			for _, sc := range []string{"map-grow-lim", "map-grow-desc", "arr-append-lim", "arr-mixed"} {
 				specs = append(specs, TrajSpecs(r.ID, sc, 20, 4, 17, 3, 2, 256, []string{"t", "limM"}, []string{"crash", "ev:commit1"})...)
@@ -351,6 +352,7 @@ func init() {
 			specs = append(specs, TrajSpecs(r.ID, "map-grow-desc", 90, 11, 12, 20, 2, 256, []string{"t", "limM"}, or)...)
 			specs = append(specs, deepColdSpecs(r, or)...)
 			specs = append(specs, collMetaSpecs(r, []string{"sem", "coldop"})...)
+			specs = append(specs, coldClosureSpecs(r)...)
 			for _, sc := range []string{"map-grow-lim", "map-grow-desc", "arr-append-lim", "arr-mixed"} {
 				specs = append(specs, TrajSpecs(r.ID, sc, 20, 4, 17, 3, 2, 256, []string{"t", "limM"}, or)...)
 			}
@@ -389,4 +391,17 @@ func deepColdSpecs(r *Run, or []string) []Spec {
 		cg[i].Extra["allkeys"] = 1
 	}
 	return append(specs, cg...)
+}
+
+// coldClosureSpecs: event-free closures (arrays, maps, nested containers operated on through child handles) whose every
+// transition is also executed with a commit placed before the operation, followed by commit and recovery.
+func coldClosureSpecs(r *Run) []Spec {
+	or := []string{"sem", "coldop"}
+	return []Spec{
+		{Name: "cold-arr-small-T256-L5", Kind: "arr-small", T: 256, L: 5, Classes: []string{"t", "mid", "limA", "limA+"}, Oracles: or},
+		{Name: "cold-arr-nested-T256-L4", Kind: "arr-small", T: 256, L: 4, Classes: []string{"t", "limA", "A", "M:t", "s:A:t"}, Oracles: or},
+		{Name: "cold-map-small-T256-K4", Kind: "map-small", T: 256, Keys: 4, Classes: []string{"t", "limM", "limM+"}, Oracles: or},
+		{Name: "cold-nested-arr-root", Kind: "nested", T: 256, Keys: 2, Classes: []string{"t", "A", "M"}, Oracles: or, Extra: map[string]int{"rootmap": 0, "lr": 2, "lc": 2, "maxc": 3, "depth": 2, "nosettype": 1}},
+		{Name: "cold-nested-map-root", Kind: "nested", T: 256, Keys: 2, Classes: []string{"t", "A", "M"}, Oracles: or, Extra: map[string]int{"rootmap": 1, "lr": 2, "lc": 2, "maxc": 3, "depth": 2, "nosettype": 1}},
+	}
 }
